@@ -50,6 +50,8 @@ CLI_CAPS = {
     # holes stored as zeros in the archive (no sparse map), re-created by the sparsifying disk writer
     "bsdtar-pax-dense-S": CAPS["pax"],
     "bsdcpio-newc":   dict(CAPS["newc"], path_max=4000),
+    "bsdtar-zip": CAPS["zip"], "bsdtar-iso9660": CAPS["iso9660"], "bsdtar-7zip": CAPS["7zip"], "bsdtar-xar": CAPS["xar"],
+    "bsdtar-newc": CAPS["newc"],
 }
 
 # ------------------------------------------------------------------ tree generator
@@ -392,6 +394,10 @@ def cli_pipelines(ctx):
         "bsdtar-default-S": lambda src, dst: "%s -cf - -C %s . | %s -xpSf - -C %s" % (t, q(src), t, q(dst)),
         "bsdtar-pax-dense-S": lambda src, dst: "%s -cf - --format pax --no-read-sparse -C %s . | %s -xpSf - -C %s" % (t, q(src), t, q(dst)),
         "bsdcpio-newc":  lambda src, dst: "cd %s && find . -depth -print | %s -o -H newc | (cd %s && %s -idm)" % (q(src), c, q(dst), c),
+        # bsdtar's own copy loop (tar/write.c) in front of the writers that take the stored length from the bytes they are given
+        **{"bsdtar-" + f: (lambda src, dst, f=f: "%s -cf %s --format %s -C %s . && %s -xpf %s -C %s; rc=$?; rm -f %s; exit $rc" %
+                           (t, q(dst + ".arc"), f + (" --options iso9660:rockridge=strict" if f == "iso9660" else ""), q(src), t, q(dst + ".arc"), q(dst), q(dst + ".arc")))   # (the default, rockridge=useful, normalises modes and owners by design)
+           for f in ("zip", "iso9660", "7zip", "xar", "newc")},
     }
 
 def decode_listing(out):
@@ -717,7 +723,8 @@ def probe_plan():
     ]
 
 ALL_FORMATS = ["pax", "gnutar", "newc", "zip", "7zip", "xar", "iso9660", "mtree"]
-ALL_CLIS = ["bsdtar-default", "bsdtar-pax", "bsdtar-gnutar", "bsdtar-default-S", "bsdtar-pax-dense-S", "bsdcpio-newc"]
+ALL_CLIS = ["bsdtar-default", "bsdtar-pax", "bsdtar-gnutar", "bsdtar-default-S", "bsdtar-pax-dense-S", "bsdcpio-newc",
+            "bsdtar-zip", "bsdtar-iso9660", "bsdtar-7zip", "bsdtar-xar", "bsdtar-newc"]
 
 def hardlink_farm(rep, ctx, stats):
     """More pending hard-link groups than the resolver's table holds before it grows (2048, 4096, ...): every file has
